@@ -165,7 +165,7 @@ QCalls(q) ==
         s5 == s1 * Cardinality(q.P2) * (Cardinality(q.C2) + 1)
     IN  6 * (p + 1) + 2 + s1 + s5 + 2                                     \* str: searches, compare str/str2, 3str, 5str, relops str/str2
       + (IF q.full = 1
-         THEN 6 * (nx * (p + 1) + p * pn + nc * (p + 1))                  \* p, pn, ch
+         THEN 6 * (nx * (p + 1) + p * pn + nc * (p + 1)) - nx             \* p, pn, ch (find_first_not_of(s) has no default pos)
             + nx * (p + 1)                                                 \* find_first_of(sv)
             + nx * (2 + 2 * s1) + s1 * 2 * 3 + s1 * (Len(q.LX) + 1)       \* compare p, sv, 3p, 3sv; 5sv on LX; 4pn on LX
             + 3 * (2 * nx + nc)                                            \* starts_with / ends_with / contains: sv, p, ch
